@@ -97,6 +97,7 @@ type alphabets struct {
 	full    []Answer // every answer class for an initial broadcast
 	reduced []Answer // one representative per class, initial broadcast
 	extra   []Answer // full minus reduced
+	tiny    []Answer // accept and one rejecting representative
 	resend  []Answer // classes for a rebroadcast position
 	nRPC    int
 	nVar    int
@@ -139,6 +140,7 @@ func buildAlphabets() *alphabets {
 	a.full = append(a.full, opq, inmW, nfy, nfc)
 	a.reduced = []Answer{acc, inm, kn, cf, rep, opq, nfy, nfc}
 	a.resend = []Answer{acc, inm, kn, cf, rep, opq}
+	a.tiny = []Answer{acc, rep}
 	in := map[string]bool{}
 	for _, e := range a.reduced {
 		in[e.Name] = true
